@@ -583,8 +583,15 @@ func runC09() int {
 		}
 	}
 	pool := core.NewPool()
-	seqs, queries := 0, 0
+	seqs, queries, deadlineHit := 0, 0, 0
 	pool.Map("c09", tasks, func(i int, r core.TaskResult) {
+		if rep.Thorough() && r.Err == "" && strings.Contains(r.Died, "timed out") {
+			// an internal (wall-clock) deadline, not a verdict: the work unit is reported as not covered
+			rep.Exhaustive = false
+			deadlineHit++
+			rep.Coverage["cap_hit"] = fmt.Sprintf("%d work units hit the per-task deadline and are not covered (first: %v)", deadlineHit, tasks[i])
+			return
+		}
 		if r.Died != "" || r.Err != "" {
 			rep.HarnessError("task %v: %s%s", tasks[i], r.Died, r.Err)
 			return
